@@ -129,6 +129,19 @@ Step(p, b) ==
            en == IF nxt = "DcsPassthrough" THEN <<EvHook(p2, b)>> ELSE <<>>
        IN <<[p2 EXCEPT !.st = nxt], ex \o r1[2] \o en>>
 
+\* n copies of byte b in one step.  Inside an OSC string a plain payload byte is stored n times (up to the room left in a
+\* fixed buffer) without any callback; everything else is n single steps.
+RECURSIVE StepMany(_, _, _)
+StepMany(p, b, n) == IF n = 0 THEN <<p, <<>>>>
+                     ELSE LET r == Step(p, b)
+                              t == StepMany(r[1], b, n - 1)
+                          IN <<t[1], r[2] \o t[2]>>
+StepRun(p, b, n) ==
+  IF p.st = "OscString" /\ Arc(p.st, b) = <<"-", "OscPut">> /\ b # 59 THEN
+     LET room == IF OscRawCap = 0 THEN n ELSE IF p.oscraw >= OscRawCap THEN 0 ELSE Min(n, OscRawCap - p.oscraw)
+     IN <<[p EXCEPT !.osc = p.osc \o [i \in 1..room |-> b], !.oscraw = p.oscraw + room], <<>>>>
+  ELSE StepMany(p, b, n)
+
 \* fold over a byte sequence: <<p', events (flattened)>>
 RECURSIVE Run(_, _)
 Run(p, bs) == IF bs = <<>> THEN <<p, <<>>>>
